@@ -1,6 +1,7 @@
 package main
 
 import (
+	"go/types"
 	"sort"
 	"fmt"
 	"strings"
@@ -21,6 +22,7 @@ func init() {
 
 func runC12(c *Ctx) {
 	defer c12IllegalChar(c)
+	defer c12OffsetScan(c)
 	p := c.P
 	c.note("R1 position-funnel: Lexer.error, Parser.error and Evaluator.error each return {Message: msg, Line: G#1, Col: G#2, SrcLine: G#0} with G = one GetLineAndCol(lexer, offset) call; no other function of package lang allocates or stores into a SyntaxError / RuntimeError.")
 	type funnel struct{ name, want string }
@@ -408,4 +410,47 @@ func c12IllegalChar(c *Ctx) {
 	}
 	sort.Strings(bad)
 	c.check(len(bad) == 0, "R6", "illegal-character-position", p.InstrPos(target), fmt.Sprintf("exactly one byte consumed on each of the %d paths, so cursor-1 is the offending byte", paths), "the error is positioned at cursor-1 but "+strings.Join(bad, ", ")+" reach it: for those the reported column is not on the illegal character (and may fall on the next line)")
+}
+
+// R7 every-byte-offset-is-found
+func c12OffsetScan(c *Ctx) {
+	p := c.P
+	c.note("R7 every-offset-is-found: error positions are byte offsets (the lexer's cursor, cursor-1, token starts), and the lexer advances byte by byte, so an offset can fall inside a multi-byte character. GetLineAndCol must therefore compare its position argument with every byte offset of the text: the value compared with the position parameter must not be the index of a `range` over the string (which only yields the offsets where a character starts — any other offset falls through to the last line).")
+	gl := p.LangFunc("(*Lexer).GetLineAndCol")
+	if gl == nil {
+		c.undecided("R7", "GetLineAndCol", "", "anchor (*Lexer).GetLineAndCol not found")
+		return
+	}
+	var pos *ssa.Parameter
+	for _, prm := range gl.Params[1:] {
+		if b, ok := prm.Type().Underlying().(*types.Basic); ok && b.Info()&types.IsInteger != 0 {
+			pos = prm
+		}
+	}
+	if pos == nil {
+		c.undecided("R7", "position-parameter", p.Pos(gl.Pos()), "GetLineAndCol has no integer position parameter")
+		return
+	}
+	n := 0
+	allInstrs(gl, func(in ssa.Instruction) {
+		b, ok := in.(*ssa.BinOp)
+		if !ok || (b.X != ssa.Value(pos) && b.Y != ssa.Value(pos)) {
+			return
+		}
+		other := b.X
+		if other == ssa.Value(pos) {
+			other = b.Y
+		}
+		n++
+		runeIndex := false
+		if ex, ok := other.(*ssa.Extract); ok {
+			if nx, ok := ex.Tuple.(*ssa.Next); ok && nx.IsString {
+				runeIndex = true
+			}
+		}
+		c.check(!runeIndex, "R7", fmt.Sprintf("offset-comparison #%d", n), p.InstrPos(b), "the position is compared with a byte index", "the position is compared with the index of a range over the string, which skips the offsets inside multi-byte characters: an error at such an offset (an illegal character after a non-ASCII byte) is reported on the last line of the program with an unrelated source line")
+	})
+	if n == 0 {
+		c.undecided("R7", "offset-comparison", p.Pos(gl.Pos()), "GetLineAndCol never compares its position parameter")
+	}
 }
